@@ -20,6 +20,7 @@ type Obligation struct {
 	Prefix    int
 	Goal      string
 	ExpectSat bool
+	NoRetry   bool // known finding: one short attempt, no retry
 	Pos       string
 	Text      string
 	fc        *FnCtx
@@ -215,7 +216,12 @@ func (fc *FnCtx) rangeFacts(tm Term, t types.Type) []string {
 				out = append(out, fmt.Sprintf("(>= %s %s)", tm.S, lo))
 				if hi != "" {
 					out = append(out, fmt.Sprintf("(<= %s %s)", tm.S, hi))
+				} else {
+					out = append(out, fmt.Sprintf("(<= %s 18446744073709551615)", tm.S))
 				}
+			} else {
+				// int / int64: a value the program holds is a machine integer (arithmetic on them stays mathematical)
+				out = append(out, fmt.Sprintf("(>= %s (- 9223372036854775808))", tm.S), fmt.Sprintf("(<= %s 9223372036854775807)", tm.S))
 			}
 		} else {
 			switch t.Underlying().(type) {
